@@ -247,6 +247,21 @@ CLAIMED["C18"] = (
     "(lib/gen_parsermethod.py); stringify! patterns are not generated.",
     "DESIGN §5 C18")
 
+CLAIMED["C17"] = (
+    "TLA+ decision models (Destructure.tla pipeline FieldCheck/TypeAssert/DropAssert whose removal breaks the "
+    "ownership-ledger invariants; MacroGuards.tla for the iterator DSL and parser_method!) enumerated by TLC; "
+    "every descriptor turned into a single program judged by rustc against the real macros (accept / reject)",
+    "Program-family enumeration: 2187 programs per run - every destructure! descriptor (4 shapes x arity 0..3 (+4,8,"
+    "15,16) x bind/_/rest patterns; misuse: Drop type, reference, one field too few / too many, `..` in struct or "
+    "tuple, two rests) in plain / annotated / type-alias form, every DSL invocation of depth <=2 adapters + consumer "
+    "with two reversing methods, an unknown method or a spurious argument, every parser_method! form x {literal, "
+    "const ident, parenthesised expr} x default present/absent; each misuse must be rejected and each minimally "
+    "different valid control accepted.",
+    "Trusted: rustc's verdict (diagnostic text not compared), the generators. The TLA+ part is a decision model; "
+    "the claim is 'every program of the generated family', not every program. Known finding F9: zero-field "
+    "aggregates are not guarded (sound, recorded).",
+    "DESIGN §5 C17")
+
 NOT_YET = {}
 
 def main():
